@@ -112,6 +112,10 @@ def gen_repo(rng, portable=False, cfg=None):
                 tree.append({'p': 'metadata/md5-cache/' + c, 'k': 'dir'})
                 for n in rng.sample(['foo-1.0', 'bar-2', 'baz-3'], rng.choice([0, 1, 2])):
                     add('metadata/md5-cache/%s/%s' % (c, n))
+            if rng.random() < 0.3 and not portable:
+                # not an ignored name here: the documented defaults cover metadata/ and four of its
+                # sub-directories, not the cache
+                add('metadata/md5-cache/' + rng.choice(['timestamp.chk', 'timestamp.commit']), 'cache ts\n')
         if rng.random() < 0.4:
             p = 'metadata/' + rng.choice(META_IGN)
             tree.append({'p': p, 'k': 'file', 'c': 'ts\n'})
